@@ -59,7 +59,8 @@ struct DeflateSession {
         int level = 0, wrap = 0, hb = 0;
         uint64_t fill = 0, regs = 0;
         int place = 0;
-        bool rel = true, dangling = false, recycle = false;
+        bool rel = true, dangling = false, recycle = false, contig = false;
+        Slot *s_all = nullptr; // contiguous mode: the whole input in one mapping, chunks are consecutive slices of it
         RefInflate ref;
         size_t eff_dict_len = 0;
         const uint8_t *eff_dict = nullptr;
@@ -88,6 +89,7 @@ struct DeflateSession {
                 fill = (uint64_t) m.geti("fill");
                 dangling = m.geti("dangling") != 0;
                 recycle = m.geti("recycle") != 0;
+                contig = m.geti("contig") != 0;
                 regs = (uint64_t) m.geti("regs");
                 if (const char *e = getenv("SIM_REGS"))
                         regs = strtoull(e, 0, 0);
@@ -252,7 +254,22 @@ struct DeflateSession {
                 if (feed == 0 && pending == 0 && !eos && !want_eos)
                         COUNT("io.idle_call");
                 // ---- input placement
-                if (feed > 0 || (reloc && pending > 0)) {
+                if (contig) {
+                        // the application compresses one large mapped array piecewise: what lies before next_in is earlier data, readable
+                        // and (for periodic data) equal to what follows, so a match reaching behind a flush point decodes to a wrong
+                        // suffix instead of faulting
+                        if (!s_all) {
+                                s_all = g_arena.alloc(data.size(), place, "in_whole", 0, 1);
+                                if (!s_all)
+                                        return budget();
+                                memcpy(s_all->data, data.data(), data.size());
+                        }
+                        st->next_in = s_all->data + (fed - pending);
+                        st->avail_in = pending + feed;
+                        fed += feed;
+                        if (feed)
+                                COUNT("mem.contiguous_input_slice");
+                } else if (feed > 0 || (reloc && pending > 0)) {
                         Slot *ns = g_arena.alloc(pending + feed, (flags & 32) ? (place ^ 1) : place, "in_chunk", 0, 1);
                         if (!ns)
                                 return budget();
@@ -730,6 +747,17 @@ static Json gen_deflate(Rng &r0, const std::string &focus, int tier)
         Json mem = Json::obj();
         bool recycle = (focus == "C07" || focus == "C05") && rmem.chance(1, 8);
         mem.set("rel", (int) !rmem.chance(1, 10)).set("place", (int) rmem.below(2)).set("fill", rmem.u64() >> 24).set("dangling", (int) rmem.below(2)).set("recycle", (int) recycle).set("regs", rmem.chance(1, 4) ? 0 : rmem.u64() >> 24).set("skip", rmem.chance(1, 2) ? 0 : (int) rmem.below(4096));
+        // contiguous periodic input (period = the window): a match that reaches behind a completed full flush finds equal bytes there
+        if ((focus == "C14" || focus == "C07") && r.chance(1, focus == "C14" ? 6 : 20)) {
+                int w = eff_hist_bits(hb);
+                Json d2 = Json::obj();
+                uint64_t per = r.chance(1, 2) ? 32768 : 1ull << w;
+                d2.set("k", (int) DK_LONGREP).set("n", per + 16 + r.logsize(40000)).set("s", r.u64() >> 16).set("p", per);
+                data = d2;
+                n = (uint64_t) data.geti("n");
+                p.set("data", data);
+                mem.set("contig", 1);
+        }
         p.set("mem", mem);
         // ---- call history
         int im = (int) rio.below(6), om = starve ? (int) rio.below(3) : (int) rio.below(6);
@@ -770,6 +798,17 @@ static Json gen_deflate(Rng &r0, const std::string &focus, int tier)
                 Json o = Json::arr();
                 o.push(0).push(feed).push(out).push(flush).push(eosf).push(flags);
                 ops.push(o);
+                if ((focus == "C14" || focus == "C07" || focus == "C05") && flush && rio.chance(1, focus == "C14" ? 3 : 8)) {
+                        // right after a flush request: give the flush room to complete, then an idle (or nearly idle) call that only
+                        // opens the next block, then data arriving while the output is starved
+                        Json o1 = Json::arr(), o2 = Json::arr(), o3 = Json::arr();
+                        o1.push(0).push(0).push(big + big / 4 + 64).push(flush).push(0).push(0);
+                        o2.push(0).push(rio.chance(1, 2) ? 0 : (uint32_t) rio.below(20)).push(rio.chance(1, 2) ? 64 : (uint32_t) rio.below(300)).push(0).push(0).push(0);
+                        o3.push(0).push(gen_chunk(rio, im, big)).push((uint32_t) (1 + rio.below(16))).push(0).push(eosf).push(0);
+                        ops.push(o1);
+                        ops.push(o2);
+                        ops.push(o3);
+                }
         }
         if (!starve && rio.chance(1, 8)) { // exactly one split of the input and one of the output
                 ops = Json::arr();
